@@ -223,7 +223,7 @@ def h_inductive(E):
     return err or 'ok'
 
 
-HIST = ['x+y', 'x + y', 'f(x)', 'f(x', '2k', '2k+k', 'x(', "x'", 'x_1+x', '1+', 'sin(f)+f', '', 'e1+1e1', '[x,y]']
+HIST = ['x+y', 'x + y', 'f(x)', 'f(x', '2k+k', 'x(', "x'", 'x_1+x', '1+', 'sin(f)+f', '', 'e1+1e1', '[x,y]', 'x\t_1+x', 'x\t+\ty', '2\tk+k', 'x\xa0+y']
 
 
 def _outcome(parser_parse, s):
@@ -275,5 +275,5 @@ def harnesses(tier):
         hs.append(Harness(pname(base, **params), fn, tuple(params.values()), FUNCS, bounds, STUBS, **kw))
     add(h_names, 'names', dict(N=5 if T else 4), 'all Unicode strings up to that length', max_paths=400000 if T else None, validate=True)
     add(h_inductive, 'inductive_step', {}, 'arbitrary cache subset x 7 inputs x <=2 fired actions over 5 names x 3 grammar outcomes', validate=False)
-    add(h_history, 'history', dict(length=4 if T else 3), 'all sequences over 14 strings on the shared PARSER', validate=False)
+    add(h_history, 'history', dict(length=4 if T else 3), 'all sequences over 17 strings (incl. tab / newline / no-break-space twins) on the shared PARSER', validate=False)
     return hs
